@@ -22,6 +22,8 @@ impl<'a> Iterator for Tokenizer<'a> {
     type Item = Token;
 
     fn next(&mut self) -> Option<Token> {
+        #[cfg(feature = "verif_hooks")]
+        crate::verif_hooks::tick();
         let current_char = self.expr.next();
 
         match current_char {
